@@ -23,6 +23,8 @@ def scenarios(tier):
         S(["HS1", "HS2"], ["--inline-suppr"]),                 # same header suppression from two workers
         S(["E", "E2"], ["--suppress=zerodiv", "--suppress=arrayIndexOutOfBounds:e.c"]),   # global state update
         S(["E", "OK"], ["--showtime=summary"]),                # timers
+        (S(["E", "H1"], ["--showtime=file"]), 0),              # ~1000 choice points: default schedules only in quick (TSan's
+        (S(["E", "OK"], ["--showtime=top5_file"]), 0),         # happens-before oracle needs no physical overlap)
         S(["E", "E2"], ["--library=posix", "--library=gnu"]),  # library data
         S(["Y", "E"], ["--error-exitcode=3"]),                 # critical errors
         S(["SB", "SM"], ["--inline-suppr", "--enable=style"]),
@@ -30,13 +32,14 @@ def scenarios(tier):
     if tier == "thorough":
         out += [
             S(["HU1", "HU2"], ["--inline-suppr", INFO]),
-            S(["E", "H1"], ["--showtime=file"]),
+
             S(["E", "H1", "H2"], [INFO, "--suppress=arrayIndexOutOfBounds:hdr.h"]),
             S(["E", "OK"], ["--showtime=top5_summary"]),
             S(["X", "XN"], ["--enable=style", "--output-file=out.txt"]),
             S(["ST", "OK"], ["--enable=all", "--inconclusive"]),
         ]
-    return out
+    # normalise to (scenario, bound-or-None)
+    return [x if isinstance(x, tuple) else (x, None) for x in out]
 
 
 def reports(err):
@@ -67,7 +70,8 @@ def main(tier, replay=None, only=None):
         return 1 if reports(x.res.err) or x.flag else 0
     per = []
     execs = points = 0
-    for sc in (scenarios(tier) if only is None else scenarios(tier)[only:only + 1]):
+    for sc, sbound in (scenarios(tier) if only is None else scenarios(tier)[only:only + 1]):
+        sb = bound if (sbound is None or tier == "thorough") else sbound
         if ctx.expired():
             break
         sc.setup()
@@ -93,7 +97,7 @@ def main(tier, replay=None, only=None):
                                           {"letters": sc.letters, "opts": sc.opts, "jobs": jobs, "prefix": x.choices(),
                                            "report": x.res.text_err()[-5000:]})
                     return sha([sorted(x.res.err.decode("latin1").splitlines()), len(reps)])
-                explore.explore(pool.run, bound, visit, stats=st, deadline=ctx.deadline)
+                explore.explore(pool.run, sb, visit, stats=st, deadline=ctx.deadline)
                 pool.close()
                 print("  %-60s -j%d schedules=%d %.0fs" % (sc.name[:60], jobs, st.execs, ctx.budget_s - ctx.time_left()), flush=True)
                 if st.capped:
@@ -102,7 +106,7 @@ def main(tier, replay=None, only=None):
                 points += st.points
                 for h in st.harness_errors:
                     ctx.bump("harness_divergences")
-                per.append({"scenario": sc.name, "jobs": jobs, "schedules": st.execs, "by_preemptions": dict(st.by_cost),
+                per.append({"bound": sb, "scenario": sc.name, "jobs": jobs, "schedules": st.execs, "by_preemptions": dict(st.by_cost),
                             "choice_points_max": st.max_points, "distinct_outputs": len(st.outcomes)})
                 ctx.distinct("%s|%d" % (sc.name, jobs))
         finally:
